@@ -293,6 +293,14 @@ def zerosE (n : Int) : Except Err Bytes := if n < 0 then .error .value else .ok 
 /-- `s.add(x)` on a set kept as a list without duplicates (a set is only ever asked `in`) -/
 def setAdd {α : Type} [DecidableEq α] (s : List α) (x : α) : List α := if x ∈ s then s else s ++ [x]
 
+/-- `s.add(x)` where `x` may be `None`, on a set of which only `bytes` members are ever asked: `None` changes no answer -/
+def setAddO {α : Type} [DecidableEq α] (s : List α) : Option α → List α
+  | none => s
+  | some x => setAdd s x
+
+/-- reading an attribute only some classes of the object have: `e` where the guard says it is absent -/
+def guardE {α : Type} (e : Err) (c : Bool) (a : α) : Except Err α := if c then .ok a else .error e
+
 /-- `bytearray.append(v)`: ValueError unless `v` is in range(256) -/
 def appendByteE (x : Bytes) (v : Int) : Except Err Bytes :=
   if v < 0 ∨ v ≥ 256 then .error .value else .ok (x ++ [UInt8.ofNat v.toNat])
